@@ -247,21 +247,57 @@ CHECKS['C21'] = {
                     'std::this_thread::get_id() is the harness thread number; std::_Hash_bytes is the libstdc++ murmur implementation (prelude.h)'],
 }
 
+
+# ---------------------------------------------------------------- C24
+def _c24():
+    qs = []
+    def q(name, kind, T, K, nops, cap=2, maxhold=2, tiers=('quick', 'thorough'), timeout=900, U=3, style='goto'):
+        qs.append(Q(name, 'c24_pools.cpp', mode='coro', T=T, K=K, defs={'POOL_KIND': kind, 'CAP': cap, 'NOPS': nops, 'MAXHOLD': maxhold, 'VERIF_T': T},
+                    spin={'do_alloc|do_free': U}, unwind=max(U, cap, nops, T * maxhold) + 2, timeout=timeout, tiers=tiers, validate=6, coro_style=style))
+    q('vyukov_pool_T2_n1_K4', 0, 2, 4, 1)
+    q('lazy_pool_T2_n1_K4', 1, 2, 4, 1)
+    q('bounded_pool_T2_n1_K4', 2, 2, 4, 1, maxhold=1)
+    q('pool_allocator_T2_n1_K4', 3, 2, 4, 1)
+    q('vyukov_pool_T3_n1_K4', 0, 3, 4, 1, maxhold=1)
+    q('vyukov_pool_T2_n2_K4', 0, 2, 4, 2, tiers=('thorough',), timeout=3000)
+    q('lazy_pool_T2_n2_K4', 1, 2, 4, 2, tiers=('thorough',), timeout=3000)
+    q('bounded_pool_T2_n2_K4', 2, 2, 4, 2, maxhold=1, tiers=('thorough',), timeout=3000)
+    q('bounded_pool_T3_n1_K4_cap4', 2, 3, 4, 1, cap=4, maxhold=1, tiers=('thorough',), timeout=3000)
+    q('vyukov_pool_T2_n1_K6', 0, 2, 6, 1, tiers=('thorough',), timeout=3000)
+    return qs
+CHECKS['C24'] = {
+    'queries': _c24(), 'level': 'model_checking',
+    'outside': ['pool capacity other than 2; more than 3 steps per thread, more than 3 threads; schedules with more than K-1 context switches',
+                'objects with non-trivial constructors', 'sequential consistency only: weakening a memory_order is not detectable',
+                'the bounded pool is never driven past its capacity (allocate() then throws std::bad_alloc by design; reaching the throw is reported as a failure)'],
+    'assumptions': ['context switches only immediately before atomic operations (DRF-SC)',
+                    'retry iterations of the queue push/pop are read-only on shared state; more than U retries per call are cut by assume (stutter-equivalent for safety)'],
+}
+
 # ---------------------------------------------------------------- C01 / C03 (HP reclamation pass, sequentialised threads)
 def _c01(tag):
     qs = []
     import math
     for st in ('classic', 'inplace'):
-        for nobj, hp, cap, tiers in ((2, 1, 2, ('quick', 'thorough')), (3, 2, 4, ('quick', 'thorough')), (4, 2, 4, ('thorough',))):
-            for order in range(math.factorial(nobj)):
-                qs.append(Q('hp_%s_scan_n%d_hp%d_order%d' % (st, nobj, hp, order), 'c01_hp.cpp', srcs=['hp.cpp'], mode='seq', opt='O1',
-                            defs={'NOBJ': nobj, 'HPCOUNT': hp, 'RETIRED_CAP': cap, 'SCAN_TYPE': st, 'ORDER': order}, unwind=24, timeout=600, tiers=tiers, validate=6))
+        for nobj, nthr, hp, tiers in ((2, 2, 1, ('quick', 'thorough')), (3, 2, 2, ('quick', 'thorough')), (3, 3, 1, ('thorough',)), (4, 2, 2, ('thorough',))):
+            qs.append(Q('scanunit_%s_n%d_t%d_hp%d' % (st, nobj, nthr, hp), 'c01_scan.cpp', mode='seq', opt='O0',
+                        defs={'NOBJ': nobj, 'NTHR': nthr, 'HPCOUNT': hp, 'SCAN_TYPE': st, 'SCAN_FN': st + '_scan', 'VERIF_SORT_MAX': max(nobj, nthr * hp)},
+                        unwind=max(nobj + 1, nthr * hp) + 2, timeout=900, tiers=tiers, validate=10, cxxflags=['-fno-access-control'], object_bits=14))
+    def co(name, T, K, nupd=1, nread=1, hp=1, tiers=('quick', 'thorough'), timeout=900, U=4, style='guard'):
+        qs.append(Q(name, 'c01_coro.cpp', mode='coro', T=T, K=K, opt='O1',
+                    defs={'SCAN_TYPE': 'inplace', 'HPCOUNT': hp, 'NUPD': nupd, 'NREAD': nread, 'ROLE2': 0, 'VERIF_T': T, 'MODEL_SCAN': 1},
+                    unwind=U, timeout=timeout, tiers=tiers, validate=6, cxxflags=['-fno-access-control'], object_bits=12, coro_style=style, atomic_fn='model_pass', abort_fn='basic_smr4scanE|basic_smr9help_scanE|basic_smr12classic_scanE|basic_smr12inplace_scanE'))
+    co('protect_vs_retire_pass_T2_K4', 2, 4)
+    co('protect_vs_retire_pass_T2_K6_u2', 2, 6, nupd=2, nread=2, U=5)
+    co('protect_vs_retire_pass_T2_K8_u2', 2, 8, nupd=2, nread=2, U=6, tiers=('thorough',), timeout=3000)
     return qs
 CHECKS['C01'] = {
     'queries': _c01('C01'), 'level': 'model_checking',
-    'outside': ['interleavings of protect/retire/scan inside the operations (the two logical threads are switched only between API calls); Guard::protect republish loop',
-                'more than 2 threads, more than 4 objects, hazard-pointer counts above 2; odd object addresses',
-                'DefaultTLSManager (the harness supplies its own TLSManager through custom_HP, the documented extension point)'],
-    'assumptions': ['malloc never fails'],
+    'outside': ['DHP (src/dhp.cpp) is not encoded: the C03 claim covers the HP scheme only',
+                'scan unit: more than 3 thread records, 4 objects, 2 hazard slots per record; thread records are typed objects built by the harness (same constructors and list linkage) instead of the raw block of create_thread_data(); std::sort is replaced by a sorting-network model (prelude.h), lower_bound/binary_search are the real libstdc++ code',
+                'interleaved queries: the reclamation pass itself is replaced by the specification the scan-unit queries prove of the real classic_scan/inplace_scan (atomic pass); protect(), Guard, retire(), the hazard slots and the retired array are the real code; help_scan adoption of a detached thread is only covered sequentially (translation-validation runs), not by a solver query',
+                'odd object addresses are covered only as far as the solver picks them (malloc alignment is not modelled); DefaultTLSManager (the harness supplies its own TLSManager through custom_HP, the documented extension point)',
+                'sequential consistency only; schedules with more than K-1 context switches'],
+    'assumptions': ['malloc never fails', 'context switches only immediately before atomic operations (DRF-SC)'],
 }
 CHECKS['C03'] = dict(CHECKS['C01'])
